@@ -65,16 +65,23 @@ CHECKS["C09"] = dict(
 CHECKS["C14"] = dict(
     text=("Machine-checked refinement theorems (Coq) over a Gallina state-machine model of suds.properties "
           "(Properties/Link/Endpoint/Skin, provider lookup, __set with validate->nvl->store->linker), "
-          "suds.options.TpLinker and Client.clone: for operation histories of ANY length every read returns the "
-          "last value assigned (default after None), invalid assignments have no effect, the client is linked to "
-          "exactly its current transport's options, clones are independent both ways. The option definition "
-          "tables are regenerated from Options() instances of /repo on every run and proved equal to the "
-          "documented ones. ~3.7k histories per quick run (exhaustive short + random to length 30) are replayed "
-          "on real clients and compared step by step inside Coq. The 'transport options follow a replaced "
-          "transport' clause is false of the code: refuted with a witness (known finding), proved in guarded form."),
+          "suds.options.TpLinker, Client.clone and the transports' __deepcopy__: for operation histories of ANY "
+          "length every read returns the last value assigned (default after None), invalid assignments have no "
+          "effect, a client is linked to exactly the transport it holds and that transport only to it, a released "
+          "transport is detached and can be handed to another client, clones are independent both ways (also in what "
+          "their transports use on a send), and what a transport hands to urllib on a send is what was set "
+          "(send_uses_what_was_set). The option definition tables are regenerated from Options() instances of /repo "
+          "on every run and proved equal to the documented ones. ~6.3k histories per quick run (exhaustive short "
+          "families incl. sends interleaved with option changes for four transport classes — among them one derived "
+          "directly from suds.transport.Transport — hand-over of released transports, random to length 30) are "
+          "replayed on real clients; timeout, proxies, headers and credentials are observed inside urllib "
+          "(OpenerDirector.open) on every send, and compared step by step inside Coq. The 'transport options follow "
+          "a replaced transport' clause is false of the code: refuted with a witness (known finding), proved in "
+          "guarded form."),
     design="DESIGN.md §5 C14",
     technique="Coq refinement proof (fold over histories) + in-Coq differential correspondence",
-    note="Python's attribute protocol and copy.deepcopy are covered by correspondence only.",
+    note="Python's attribute protocol and copy.deepcopy are covered by correspondence only; giving a client a "
+         "transport another client still holds is outside the theorems (boolean guard noshare; the code raises).",
 )
 CHECKS["C16"] = dict(
     text=("Machine-checked theorems (Coq) over a Gallina model of PluginContainer/PluginDomain/Method dispatch and "
@@ -89,14 +96,18 @@ CHECKS["C16"] = dict(
     note="Which documents the loader opens is taken from a recording store/cache (C12 covers the loader).",
 )
 CHECKS["C17"] = dict(
-    text=("Machine-checked theorems (Coq) over a Gallina model of Binding.headercontent/mkheader (positional loop "
-          "with break, dict lookup, deepcopy of caller elements, setPrefix) and suds.wsse token rendering, reusing "
-          "the C01 marshaller theorem for each entry: under an explicit guard the Header holds exactly the "
-          "configured entries marshalled per their schema and qualified by their own namespace, caller objects are "
-          "never altered, repeating a call sends the same headers, one Security element carries every token, "
-          "timestamps read back as the same instant (via the C06 dateTime round trip). Five departures of the "
-          "unchanged code are refuted with witnesses and listed as known findings. ~600 cases / 1100 calls per "
-          "quick run compared with model and reference inside Coq."),
+    text=("Machine-checked theorems (Coq) over a Gallina model of Binding.headercontent/mkheader (positional loop that "
+          "skips surplus plain values and None, dict lookup, one element per item of a list-valued entry, deepcopy of "
+          "caller elements, setPrefix) and suds.wsse token rendering, reusing the C01 marshaller theorem for each "
+          "entry: the Header holds exactly the configured entries marshalled per their schema and qualified by their "
+          "own namespace (headers_as_configured, list_entry_one_element_per_item, positional_none_leaves_part_out, "
+          "surplus_values_skipped_elements_kept), caller objects are never altered, repeating a call sends the same "
+          "headers, one Security element carries every token, timestamps read back as the same instant (via the C06 "
+          "dateTime round trip). Four defects of the original code were repaired in /repo; the old behaviours are "
+          "kept as separate definitions with regression witnesses and reported as violations under their keys if "
+          "they return; one departure remains (prefix rebinding inside ready-made elements, known finding). ~810 "
+          "cases / 1400 calls per quick run (incl. two ports with different header declarations for one operation "
+          "on one client) compared with model and reference inside Coq."),
     design="DESIGN.md §5 C17",
     technique="Coq proof (structural walk over declared parts, reuse of C01/C06 theorems) + correspondence",
     note="Header part resolution in wsdl.py, prefix assignment and nonce/created generation are covered by "
